@@ -38,6 +38,12 @@ def canon_obj(x, string_na=False):
         return NA
     if isinstance(x, (bool, np.bool_)):
         return ("B", bool(x))
+    if isinstance(x, np.datetime64):
+        return NA if np.isnat(x) else ("T", dt_to_us(x))
+    if isinstance(x, np.timedelta64):       # note: a subclass of np.signedinteger
+        if np.isnat(x):
+            return NA
+        return ("D", int(x.astype("timedelta64[us]").astype(np.int64)))
     if isinstance(x, (int, np.integer)):
         return ("N", int(x))
     if isinstance(x, (float, np.floating)):
